@@ -57,7 +57,7 @@ VARIABLES status, lock, tr, tconn, lst, trigT,      \* relayStatus, bufferLock, 
           fedC, fedS, fedTC, fedTS, nIn, nOut, nTI, nTO,
           pcI, bufI, stI, pcO, bufO, stO,
           pcTI, bufTI, stTI, pcTO, bufTO, stTO,      \* functions over Pairs
-          pcW, wtok, werr,
+          pcW, wtok, werr, confirm,                 \* confirm: Seq(BOOLEAN), what the ACT of round r says
           acc, hp, trRelay, chC, chS,               \* accept loop, handler, t.relay # nil, clientBufChan / serverBufChan
           pcl, psv, rcC, rcS                        \* client end, server end, relay closed clientConn / serverConn
 
@@ -69,7 +69,7 @@ pI == <<pcI, bufI, stI>>
 pO == <<pcO, bufO, stO>>
 pTI == <<pcTI, bufTI, stTI>>
 pTO == <<pcTO, bufTO, stTO>>
-pW == <<pcW, wtok, werr>>
+pW == <<pcW, wtok, werr, confirm>>
 conn == <<acc, hp, trRelay, chC, chS, pcl, psv, rcC, rcS>>
 vars == <<shared, bufs, outs, hist, pI, pO, pTI, pTO, pW, conn>>
 
@@ -89,7 +89,7 @@ Init ==
     /\ pcI = "read" /\ bufI = <<>> /\ stI = "S" /\ pcO = "read" /\ bufO = <<>> /\ stO = "S"
     /\ pcTI = [p \in Pairs |-> "off"] /\ bufTI = [p \in Pairs |-> <<>>] /\ stTI = [p \in Pairs |-> "S"]
     /\ pcTO = [p \in Pairs |-> "off"] /\ bufTO = [p \in Pairs |-> <<>>] /\ stTO = [p \in Pairs |-> "S"]
-    /\ pcW = "off" /\ wtok = 0 /\ werr = FALSE
+    /\ pcW = "off" /\ wtok = 0 /\ werr = FALSE /\ confirm = Confirm
     /\ acc = "off" /\ hp = [p \in Pairs |-> "idle"] /\ trRelay = [p \in Pairs |-> FALSE]
     /\ chC = [p \in Pairs |-> "open"] /\ chS = [p \in Pairs |-> "open"]
     /\ pcl = [p \in Pairs |-> "idle"] /\ psv = [p \in Pairs |-> "idle"]
@@ -202,7 +202,7 @@ OutListen ==   \* listenForTunnel: net.Listen, tunnelListener.Store, acceptOnTun
 
 OutTrigger ==  \* go handshake(); the trigger chunk goes on to the client
     /\ pcO = "trig2" /\ pcW \in {"off", "done"}
-    /\ pcW' = "recvAct" /\ werr' = FALSE /\ wtok' = 0
+    /\ pcW' = "recvAct" /\ werr' = FALSE /\ wtok' = 0 /\ confirm' = confirm
     /\ cout' = cout \o bufO /\ bufO' = <<>> /\ pcO' = "read"
     /\ UNCHANGED <<shared, bufs, sin, tsrv, tcli, hist, stO, pI, pTI, pTO, conn>>
 
@@ -226,18 +226,18 @@ WkRecvAct ==   \* recvAction: junk-tolerant line read on stdinBuffer (in-band an
                                    ELSE pcW' = "errC" /\ werr' = TRUE /\ junk' = junk \cup {c[j] : j \in 1..i}
        ELSE /\ junk' = junk \cup Set(c) /\ inRest' = inRest /\ pcW' = pcW /\ UNCHANGED <<wtok, werr>>
     /\ inQ' = Tail(inQ)
-    /\ UNCHANGED <<shared, outQ, outRest, outs, hist, pI, pO, pTI, pTO, conn>>
+    /\ UNCHANGED <<shared, outQ, outRest, outs, hist, pI, pO, pTI, pTO, confirm, conn>>
 
 WkStoreTC ==   \* r.tunnelConnected.Store(action.TunnelConnected)  (not under the lock)
     /\ pcW = "storeTC"
     /\ tconn' = (K(wtok) = ACTT) /\ pcW' = "sendAct"
-    /\ UNCHANGED <<status, lock, tr, lst, trigT, bufs, outs, hist, pI, pO, pTI, pTO, wtok, werr, conn>>
+    /\ UNCHANGED <<status, lock, tr, lst, trigT, bufs, outs, hist, pI, pO, pTI, pTO, wtok, werr, confirm, conn>>
 
 WkSendAct ==   \* sendStringToServer("ACT"): tunnelRelay.Load() != nil && tunnelConnected.Load() ? clientBufChan : osStdinChan
     /\ pcW = "sendAct"
     /\ ToServer(<<wtok>>, TRUE)
-    /\ pcW' = (IF Confirm[R(wtok)] THEN "recvCfg" ELSE "flush")
-    /\ UNCHANGED <<shared, bufs, cout, tcli, hist, pI, pO, pTI, pTO, wtok, werr, conn>>
+    /\ pcW' = (IF confirm[R(wtok)] THEN "recvCfg" ELSE "flush")
+    /\ UNCHANGED <<shared, bufs, cout, tcli, hist, pI, pO, pTI, pTO, wtok, werr, confirm, conn>>
 
 WkRecvCfg ==
     /\ pcW = "recvCfg" /\ outQ # <<>>
@@ -249,21 +249,21 @@ WkRecvCfg ==
                                ELSE pcW' = "errC" /\ werr' = TRUE /\ junk' = junk \cup {c[j] : j \in 1..i}
        ELSE /\ junk' = junk \cup Set(c) /\ outRest' = outRest /\ pcW' = pcW /\ UNCHANGED <<wtok, werr>>
     /\ outQ' = Tail(outQ)
-    /\ UNCHANGED <<shared, inQ, inRest, outs, hist, pI, pO, pTI, pTO, conn>>
+    /\ UNCHANGED <<shared, inQ, inRest, outs, hist, pI, pO, pTI, pTO, confirm, conn>>
 
 WkSendCfg ==   \* sendStringToClient("CFG"): ... ? serverBufChan : bypassTmuxChan
     /\ pcW = "sendCfg"
     /\ ToClient(<<wtok>>, TRUE) /\ pcW' = "flush"
-    /\ UNCHANGED <<shared, bufs, sin, tsrv, hist, pI, pO, pTI, pTO, wtok, werr, conn>>
+    /\ UNCHANGED <<shared, bufs, sin, tsrv, hist, pI, pO, pTI, pTO, wtok, werr, confirm, conn>>
 
 WkErrC ==      \* sendError: FAIL to the client, then to the server, routed like everything else
     /\ pcW = "errC"
     /\ ToClient(<<FAIL>>, TRUE) /\ pcW' = "errS"
-    /\ UNCHANGED <<shared, bufs, sin, tsrv, hist, pI, pO, pTI, pTO, wtok, werr, conn>>
+    /\ UNCHANGED <<shared, bufs, sin, tsrv, hist, pI, pO, pTI, pTO, wtok, werr, confirm, conn>>
 WkErrS ==
     /\ pcW = "errS"
     /\ ToServer(<<FAIL>>, TRUE) /\ pcW' = "flush"
-    /\ UNCHANGED <<shared, bufs, cout, tcli, hist, pI, pO, pTI, pTO, wtok, werr, conn>>
+    /\ UNCHANGED <<shared, bufs, cout, tcli, hist, pI, pO, pTI, pTO, wtok, werr, confirm, conn>>
 
 WkFlushLock == \* flushHandshakeBuffer: Lock; pop everything, each chunk routed by tunnelRelay && tunnelConnected
     /\ pcW = "flush" /\ lock = <<"free", 0>>
@@ -272,31 +272,32 @@ WkFlushLock == \* flushHandshakeBuffer: Lock; pop everything, each chunk routed 
     /\ ToClient(outRest \o Flat(outQ), FlushRoute = "real")
     /\ inQ' = <<>> /\ outQ' = <<>> /\ inRest' = <<>> /\ outRest' = <<>>
     /\ pcW' = "store"
-    /\ UNCHANGED <<status, tr, tconn, lst, trigT, junk, hist, pI, pO, pTI, pTO, wtok, werr, conn>>
+    /\ UNCHANGED <<status, tr, tconn, lst, trigT, junk, hist, pI, pO, pTI, pTO, wtok, werr, confirm, conn>>
 
 WkStore ==     \* relayStatus.Store(transferring)  /  resetToStandby(handshaking): the CAS
     /\ pcW = "store"
     /\ IF wtok # 0 /\ K(wtok) \in {CFG} /\ ~werr
        THEN status' = "T" /\ pcW' = "unlock"
        ELSE IF status = "H" THEN status' = "S" /\ pcW' = "clear" ELSE status' = status /\ pcW' = "unlock"
-    /\ UNCHANGED <<lock, tr, tconn, lst, trigT, bufs, outs, hist, pI, pO, pTI, pTO, wtok, werr, conn>>
+    /\ UNCHANGED <<lock, tr, tconn, lst, trigT, bufs, outs, hist, pI, pO, pTI, pTO, wtok, werr, confirm, conn>>
 
 WkClear ==
     /\ pcW = "clear" /\ DoClear /\ pcW' = "unlock"
-    /\ UNCHANGED <<status, lock, trigT, bufs, outs, hist, pI, pO, pTI, pTO, wtok, werr, acc, hp, chC, chS, pcl, psv, rcC, rcS>>
+    /\ UNCHANGED <<status, lock, trigT, bufs, outs, hist, pI, pO, pTI, pTO, wtok, werr, confirm, acc, hp, chC, chS, pcl, psv, rcC, rcS>>
 
 WkUnlock ==
     /\ pcW = "unlock" /\ lock = <<"Wk", 0>>
     /\ lock' = <<"free", 0>> /\ pcW' = "done"
-    /\ UNCHANGED <<status, tr, tconn, lst, trigT, bufs, outs, hist, pI, pO, pTI, pTO, wtok, werr, conn>>
+    /\ UNCHANGED <<status, tr, tconn, lst, trigT, bufs, outs, hist, pI, pO, pTI, pTO, wtok, werr, confirm, conn>>
 
 (* ------------------------------ Acc / H[p]: acceptOnTunnel, handleTunnelConn ------------------------------ *)
 AccAccept(p) ==   \* Accept returned the connection of client p
     /\ acc = "run" /\ lst = "open" /\ pcl[p] = "dialed" /\ hp[p] = "idle"
     /\ IF tr # 0
        THEN /\ hp' = [hp EXCEPT ![p] = "refused"] /\ rcC' = [rcC EXCEPT ![p] = TRUE] /\ acc' = "exit"
-       ELSE /\ hp' = [hp EXCEPT ![p] = "hello"] /\ UNCHANGED <<rcC, acc>>
-    /\ UNCHANGED <<shared, bufs, outs, hist, pI, pO, pTI, pTO, pW, trRelay, chC, chS, pcl, psv, rcS>>
+            /\ pcl' = [pcl EXCEPT ![p] = "closed"]
+       ELSE /\ hp' = [hp EXCEPT ![p] = "hello"] /\ UNCHANGED <<rcC, acc, pcl>>
+    /\ UNCHANGED <<shared, bufs, outs, hist, pI, pO, pTI, pTO, pW, trRelay, chC, chS, psv, rcS>>
 
 AccExit ==        \* the deferred function of the accept loop after it refused a connection
     /\ acc = "exit"
@@ -320,12 +321,17 @@ HCas(p) ==        \* r.tunnelRelay.CompareAndSwap(nil, tr)
        ELSE tr' = tr /\ hp' = [hp EXCEPT ![p] = "lose"]
     /\ UNCHANGED <<status, lock, tconn, lst, trigT, bufs, outs, hist, pI, pO, pTI, pTO, pW, acc, trRelay, chC, chS, pcl, psv, rcC, rcS>>
 
-HBind(p) ==       \* tr.relay.Store(r); go wrapInput; go wrapOutput; close + forget the listener
+HBind(p) ==       \* tr.relay.Store(r); go wrapInput; go wrapOutput
     /\ hp[p] = "bind"
     /\ trRelay' = [trRelay EXCEPT ![p] = TRUE]
     /\ pcTI' = [pcTI EXCEPT ![p] = "read"] /\ pcTO' = [pcTO EXCEPT ![p] = "read"]
+    /\ hp' = [hp EXCEPT ![p] = "closeL"]
+    /\ UNCHANGED <<shared, bufs, outs, hist, pI, pO, bufTI, stTI, bufTO, stTO, pW, acc, chC, chS, pcl, psv, rcC, rcS>>
+
+HCloseL(p) ==     \* close + forget the listener
+    /\ hp[p] = "closeL"
     /\ lst' = "none" /\ hp' = [hp EXCEPT ![p] = "done"]
-    /\ UNCHANGED <<status, lock, tr, tconn, trigT, bufs, outs, hist, pI, pO, bufTI, stTI, bufTO, stTO, pW, acc, chC, chS, pcl, psv, rcC, rcS>>
+    /\ UNCHANGED <<status, lock, tr, tconn, trigT, bufs, outs, hist, pI, pO, pTI, pTO, pW, acc, trRelay, chC, chS, pcl, psv, rcC, rcS>>
 
 HLose(p) ==       \* close(clientBufChan); close(serverBufChan)
     /\ hp[p] = "lose"
@@ -393,7 +399,7 @@ TIFwd(p) ==       \* t.clientBufChan <- buf
     /\ UNCHANGED <<shared, bufs, sin, cout, tcli, hist, stTI, pI, pO, pTO, pW, conn>>
 
 TIEof(p) ==       \* Read returned io.EOF: the client closed its end and everything it wrote has been read
-    /\ pcTI[p] = "read" /\ pcl[p] = "closed" /\ nTI[p] = Len(CliTun[p]) /\ ~rcC[p]
+    /\ pcTI[p] = "read" /\ pcl[p] = "closed" /\ ~rcC[p]
     /\ pcTI' = [pcTI EXCEPT ![p] = "eofwait"]
     /\ UNCHANGED <<shared, bufs, outs, hist, bufTI, stTI, pI, pO, pTO, pW, conn>>
 
@@ -456,7 +462,7 @@ TOFwd(p) ==       \* t.serverBufChan <- buf
     /\ UNCHANGED <<shared, bufs, sin, cout, tsrv, hist, stTO, pI, pO, pTI, pW, conn>>
 
 TOEof(p) ==
-    /\ pcTO[p] = "read" /\ psv[p] = "closed" /\ nTO[p] = Len(SrvTun[p]) /\ ~rcS[p]
+    /\ pcTO[p] = "read" /\ psv[p] = "closed" /\ ~rcS[p]
     /\ pcTO' = [pcTO EXCEPT ![p] = "eofwait"]
     /\ UNCHANGED <<shared, bufs, outs, hist, bufTO, stTO, pI, pO, pTI, pW, conn>>
 
@@ -481,28 +487,32 @@ WkIdle == pcW \in {"off", "done"}
 InWindow == trigT /\ status = "H" /\ ~tconn /\ pcW \notin {"off", "done", "flush", "store", "clear", "unlock"}
 EndOK == WkIdle /\ (LateOK \/ \A p \in Pairs : pcl[p] = "idle" \/ Resolved(p))
 
+(* timing assumption: a later transfer starts only when no tunnel pump is in the middle of a chunk (a pump that   *)
+(* stalled between its status load and addHandshakeBuffer across a whole transfer would still hold the relay     *)
+(* pointer it loaded before the reset and park into the next handshake: found by TLC, design level only)         *)
+TunPumpsAtRest == \A p \in Pairs : pcTI[p] \in {"off", "read", "eofwait", "ended", "spin"} /\ pcTO[p] \in {"off", "read", "eofwait", "ended", "spin"}
 CliReady == /\ nIn < Len(CliChunks)
             /\ LET c == CliChunks[nIn + 1] IN
                /\ NeedsAny(c, {ACT, BADACT}, cout, {TRIG, TRIGT})
                /\ Needs(c, {END}, cout, CFG)
                /\ (HasK(c, {END}) => EndOK)
-               /\ (~Window => ~InWindow /\ ~HasK(bufO, {TRIGT}))
+               /\ (~Window => HasK(c, {ACT, BADACT}) \/ (~InWindow /\ ~HasK(bufO, {TRIGT})))
 SrvReady == /\ nOut < Len(SrvChunks)
             /\ LET c == SrvChunks[nOut + 1] IN
                /\ Needs(c, {CFG, BADCFG}, sin, ACT)
                /\ (HasK(c, {END}) => EndOK /\ status = "T")
-               /\ (~Window => ~InWindow)
+               /\ (~Window => HasK(c, {CFG, BADCFG}) \/ ~InWindow)
                /\ (HasK(c, {TRIGT}) /\ ~Window => pcI = "read")
                /\ \A i \in 1..Len(c) :      \* a later trigger only after the previous transfer ended and the relay has come to rest
                      (K(c[i]) \in {TRIG, TRIGT} /\ R(c[i]) > 1) =>
-                         /\ status = "S" /\ WkIdle /\ NoneClearing /\ acc = "off" /\ nIn > 0
+                         /\ status = "S" /\ WkIdle /\ NoneClearing /\ acc = "off" /\ nIn > 0 /\ TunPumpsAtRest
                          /\ Has(sin, T(END, R(c[i]) - 1)) \/ Has(cout, T(END, R(c[i]) - 1)) \/ Has(cout, FAIL)
                             \/ \E p \in Pairs : Has(tsrv[p], T(END, R(c[i]) - 1)) \/ Has(tcli[p], T(END, R(c[i]) - 1)) \/ Has(tcli[p], FAIL)
-                            \/ ~Confirm[R(c[i]) - 1]
+                            \/ ~confirm[R(c[i]) - 1]
                          /\ (LateOK \/ \A p \in Pairs : pcl[p] = "idle" \/ Resolved(p))
 
 Dial(p) ==        \* the client saw the trigger of its round (with the relay's port) and connected
-    /\ pcl[p] = "idle" /\ lst = "open" /\ Has(cout, T(TRIGT, PairRound[p]))
+    /\ pcl[p] = "idle" /\ lst = "open"
     /\ pcl' = [pcl EXCEPT ![p] = "dialed"]
     /\ UNCHANGED <<shared, bufs, outs, hist, pI, pO, pTI, pTO, pW, acc, hp, trRelay, chC, chS, psv, rcC, rcS>>
 
@@ -523,12 +533,13 @@ SrvTunReady(p) == /\ nTO[p] < Len(SrvTun[p]) /\ psv[p] = "open"
 (* the ends close their tunnel connection once the transfer is over and everything they sent was forwarded *)
 Over(p) == /\ nTI[p] = Len(CliTun[p]) /\ nTO[p] = Len(SrvTun[p]) /\ pcTI[p] = "read" /\ pcTO[p] = "read"
            /\ WkIdle /\ ~trRelay[p] /\ NoneClearing
+CloseOK(p) == Closing /\ (hp[p] \in {"closeL", "done"} => Over(p)) /\ hp[p] \in {"closeL", "done", "lost"}
 CliClose(p) ==
-    /\ Closing /\ pcl[p] = "open" /\ (hp[p] = "done" => Over(p)) /\ hp[p] \in {"done", "lost"}
+    /\ pcl[p] = "open"
     /\ pcl' = [pcl EXCEPT ![p] = "closed"]
     /\ UNCHANGED <<shared, bufs, outs, hist, pI, pO, pTI, pTO, pW, acc, hp, trRelay, chC, chS, psv, rcC, rcS>>
 SrvClose(p) ==
-    /\ Closing /\ psv[p] = "open" /\ (hp[p] = "done" => Over(p)) /\ hp[p] \in {"done", "lost"}
+    /\ psv[p] = "open"
     /\ psv' = [psv EXCEPT ![p] = "closed"]
     /\ UNCHANGED <<shared, bufs, outs, hist, pI, pO, pTI, pTO, pW, acc, hp, trRelay, chC, chS, pcl, rcC, rcS>>
 
@@ -539,17 +550,18 @@ NextRelay ==
     \/ WkFlushLock \/ WkStore \/ WkClear \/ WkUnlock
     \/ AccExit \/ AccErr
     \/ \E p \in Pairs :
-          \/ AccAccept(p) \/ HGreet(p) \/ HCas(p) \/ HBind(p) \/ HLose(p) \/ WrSEnd(p) \/ WrCEnd(p)
+          \/ AccAccept(p) \/ HGreet(p) \/ HCas(p) \/ HBind(p) \/ HCloseL(p) \/ HLose(p) \/ WrSEnd(p) \/ WrCEnd(p)
           \/ TILoad(p) \/ TILock(p) \/ TIPark(p) \/ TISkip(p) \/ TIMark(p) \/ TIClear(p) \/ TIFwd(p)
-          \/ TIEof(p) \/ TIErr(p) \/ TIBreak(p)
+          \/ (nTI[p] = Len(CliTun[p]) /\ TIEof(p)) \/ TIErr(p) \/ TIBreak(p)
           \/ TOLoad(p) \/ TOLock(p) \/ TOPark(p) \/ TOSkip(p) \/ TOMark(p) \/ TOClear(p) \/ TOFwd(p)
-          \/ TOEof(p) \/ TOErr(p) \/ TOBreak(p)
+          \/ (nTO[p] = Len(SrvTun[p]) /\ TOEof(p)) \/ TOErr(p) \/ TOBreak(p)
 
 NextEnv ==
     \/ (CliReady /\ InRead(CliChunks[nIn + 1]))
     \/ (SrvReady /\ OutRead(SrvChunks[nOut + 1]))
     \/ \E p \in Pairs :
-          \/ Dial(p) \/ DialDropped(p) \/ CliClose(p) \/ SrvClose(p)
+          \/ (Has(cout, T(TRIGT, PairRound[p])) /\ Dial(p)) \/ DialDropped(p)
+          \/ (CloseOK(p) /\ CliClose(p)) \/ (CloseOK(p) /\ SrvClose(p))
           \/ (CliTunReady(p) /\ TIRead(p, CliTun[p][nTI[p] + 1]))
           \/ (SrvTunReady(p) /\ TORead(p, SrvTun[p][nTO[p] + 1]))
 
@@ -591,7 +603,7 @@ BoundIsCurrent == \A p \in Pairs : trRelay[p] => tr = p
 Idle == /\ pcI = "read" /\ pcO = "read" /\ WkIdle
         /\ \A p \in Pairs : pcTI[p] \in {"off", "read", "eofwait", "ended", "spin"} /\ pcTO[p] \in {"off", "read", "eofwait", "ended", "spin"}
 Fed == /\ nIn = Len(CliChunks) /\ nOut = Len(SrvChunks)
-       /\ \A p \in Pairs : hp[p] = "done" => nTI[p] = Len(CliTun[p]) /\ nTO[p] = Len(SrvTun[p])
+       /\ \A p \in Pairs : hp[p] \in {"closeL", "done"} => nTI[p] = Len(CliTun[p]) /\ nTO[p] = Len(SrvTun[p])
 Quiet == Fed /\ Idle /\ \A p \in Pairs : Resolved(p) /\ pcl[p] # "dialed"
 
 TunnelNothingLost ==
